@@ -76,7 +76,7 @@ VALUE_OPTS = {"--strategy": ["minimize-around", "check-only", "minimize"], "--te
               "--tempdir": ["td"], "--min": ["2"], "--max": ["4"], "--repeat": ["always", "never"],
               "--chunk-size": ["2"], "--max-run-time": ["5"]}
 FLAGS = ["-c", "--char", "-l", "-j", "-s", "--attrs", "-v", "--repeat-first-round"]
-SUFFIX_TOKENS = ["-c", "-j", "--strategy=check-only", "--min", "4", "--testcase", "x", "--char", "t.txt"]
+SUFFIX_TOKENS = ["-c", "-j", "--strategy=check-only", "--min", "--", "4", "--testcase", "x", "--char", "t.txt"]
 
 STRATS = {"minimize": "Minimize", "minimize-around": "MinimizeSurroundingPairs", "check-only": "CheckOnly"}
 ATOMS = {"-c": "TestcaseChar", "--char": "TestcaseChar", "-l": "TestcaseLine", "-j": "TestcaseJsStr",
@@ -161,7 +161,7 @@ def run(ck: Check):
                     continue
                 if len(strat) > 1:
                     continue
-                suffixes = [()] + [(s,) for s in SUFFIX_TOKENS[:4]]
+                suffixes = [()] + [(s,) for s in SUFFIX_TOKENS[:5]]
                 if n <= 1:
                     suffixes += [tuple(x) for x in itertools.product(SUFFIX_TOKENS, repeat=2)][:: (3 if quick else 1)]
                 for suf in suffixes:
